@@ -152,10 +152,7 @@ func init() {
 			}
 			cf := cfgs(caps, []int{0}, []api.RelMode{api.RelByIdx}, relUniverse)
 			if path == model.PathMapN {
-				cf = autoPad(cf, 1)
-				if t == Thorough {
-					cf = autoPad(cf, 2)
-				}
+				cf = autoPad(cf, 1, 2)
 			}
 			scs = append(scs, &engine.Scenario{
 				Name:     "C04-relations/" + path.String(),
